@@ -27,7 +27,9 @@ RECURSIVE Walk(_, _, _, _)
 Walk(init, hist, i, acc) ==
   IF i > Len(hist) THEN acc
   ELSE LET b == IF i = 1 THEN init ELSE [cls |-> hist[i - 1].cls, sty |-> hist[i - 1].sty] IN
-       Walk(init, hist, i + 1, acc \o FailList(StepClauses(b, hist[i])))
+       Walk(init, hist, i + 1, acc \o FailList(StepClauses(b, hist[i]) \o
+            \* the helpers change the tag they are called on and nothing else (a tag that was given the same value objects)
+            << <<"C16:HelpersChangeOnlyTheirOwnTag", hist[i].twinSame>> >>))
 
 Clauses(e) ==
   IF e.k = "css" THEN FailList(
